@@ -287,6 +287,22 @@ pub fn run(s: &Session) {
             ],
         });
     }
+    // a responder receiving proposals whose version data has the short pre-v11 shape (or other odd shapes) under a
+    // version it supports
+    for shape in 0u8..4 {
+        for ver in [13u64, 14, 15, 11, 7] {
+            directed.push(Case {
+                responder: true,
+                small_limits: false,
+                evs: vec![Ev::Connected(0), Ev::Recv(0, vec![MsgR::HsProposeShaped(vec![(ver, 764824073, shape)])]), Ev::ConfirmSend, Ev::Housekeeping, Ev::ConfirmSend],
+            });
+            directed.push(Case {
+                responder: false,
+                small_limits: false,
+                evs: vec![Ev::Include(0), Ev::Housekeeping, Ev::ConfirmConnect, Ev::ConfirmSend, Ev::Recv(0, vec![MsgR::HsAcceptShaped(ver, 764824073, shape)]), Ev::Housekeeping, Ev::ConfirmSend, Ev::ConfirmSend, Ev::Housekeeping],
+            });
+        }
+    }
     // two peers: the first over-answers (or answers with just under the high-water mark), the second one finishes its
     // handshake afterwards and is asked for the remainder
     let hs = |p: u8| vec![Ev::Connected(p), Ev::Sent(p, MsgR::HsPropose(vec![(13, 764824073)])), Ev::Recv(p, vec![MsgR::HsAccept(13, 764824073)])];
